@@ -10,7 +10,7 @@
        elements, * deep-copies.
    Sem.v is not modified; reformulations are proved equal to its terms. *)
 From Coq Require Import ZArith NArith PArith List String Bool Floats FMapPositive Lia.
-From EvyV Require Import Base Num Ast Omap Sem.
+From EvyV Require Import Base Num Ast Omap Sem SemPure.
 Import ListNotations.
 Local Open Scope positive_scope.
 
@@ -823,6 +823,16 @@ Ltac spi_b G :=
     | match goal with |- SpecI (match ?x with _ => _ end) => destruct x end
     | match goal with |- SpecI (if ?x then _ else _) => destruct x end ].
 
+(* a computation that factors through the heap and only extends it (SemPure: every pure
+   built-in) changes no existing cell at all *)
+Lemma SpecI_heap_only {A} (m : M A) : heap_only m -> SpecI m.
+Proof.
+  intros HO s r s' H W. destruct (heap_only_run m s r s' HO H) as (E & X & _).
+  destruct (X W) as [W' [X1 X2]]. apply (Inv_extends s s'); auto.
+  - split; assumption.
+  - rewrite E. reflexivity.
+Qed.
+
 Lemma SpecI_builtin name e args m :
   good_env e -> builtin name e args = Some m -> SpecI m.
 Proof.
@@ -830,7 +840,7 @@ Proof.
   repeat match type of H with
          | (if ?c then _ else _) = Some _ => destruct c; [inversion H; subst m; clear H; spi_b G|]
          end.
-  discriminate.
+  eapply SpecI_heap_only, pure_builtin_spec; exact H.
 Qed.
 
 (* the test builtin only reads the heap and bumps counters *)
